@@ -17,7 +17,10 @@ ADDRS = [["192.168.1.10", 1900], ["192.168.1.10", 50123], ["10.0.0.7", 1900],
 LOCATIONS = ["http://192.168.1.10:80/desc.xml", "http://[fe80::2]:8080/d.xml", "http://[fe80::2]/d?x=1#f", "https://[fe80::abcd]:443",
              "http://[2001:db8::5]/d", "http://host.example/desc.xml", "foo", "http://[fe80::1/x", "http://[fe80::2]:99999/x",
              "  ", "\x0b", "http://[FE80::2]:80/UP", "//[fe80::3]/p", "http://user@[fe80::4]:1/", "http://[fe80::5%25eth0]/z",
-             "http://169.254.1.1/x", "http://[fe80::6]:0/p"]
+             "http://169.254.1.1/x", "http://[fe80::6]:0/p",
+             # not in urllib's canonical form: must come back unchanged unless the host is link-local
+             "HTTP://192.168.1.5/desc.xml", "http://192.168.1.5/desc.xml?", "http://10.0.0.1/d#", "http://[2001:db8::1]:80/x?",
+             "Http://[2001:DB8::1]/A", "http://10.0.0.1/a\tb", "http://10.0.0.1", "http://h.example:/p", "http://10.0.0.1/p;x?#"]
 LOCAL = ["192.168.1.2", 1900]
 
 
